@@ -23,7 +23,7 @@ TIERS = {
 }
 REQUIRED_BUCKETS = ['import:plain', 'import:as', 'import:from', 'import:from-as', 'obj:function', 'obj:class', 'obj:nested-class', 'obj:method', 'obj:nested-method',
                     'spelling:two-for-one-object', 'order:class-then-method', 'order:method-then-class', 'order:method-via-other-spelling-than-class',
-                    'ref:created-before-method-configured', 'include:own-imports', 'include:colliding-bound-name', 'error:name-from-includer', 'error:name-from-includee',
+                    'ref:created-before-method-configured', 'ref:scoped', 'include:own-imports', 'include:colliding-bound-name', 'error:name-from-includer', 'error:name-from-includee',
                     'error:attribute', 'error:gin-reserved', 'error:late-enabling', 'error:aliased-enabling', 'error:unknown-feature', 'roundtrip:same-process',
                     'roundtrip:fresh-process', 'equally-named-modules']
 ORACLE_COUNTERS = ['oracle_evals', 'deliveries_compared', 'roundtrips']
@@ -107,7 +107,10 @@ def iter_cases(ctx, rng, n):
       stmts.append(['bind', o, rng.choice(avail[o]), rng.choice(OBJECTS[o][2]), rng.randrange(1000), rng.choice(['', '', 'sc'])])
     if avail['sub.gamma.fg'] and avail['alpha.K'] and rng.random() < 0.5:
       pos = rng.randrange(len(stmts) + 1)
-      stmts.insert(pos, ['ref', 'sub.gamma.fg', rng.choice(avail['sub.gamma.fg']), 'ref', rng.choice(avail['alpha.K'])])
+      rsc = rng.choice(['', 'rsc', 'rsc'])
+      stmts.insert(pos, ['ref', 'sub.gamma.fg', rng.choice(avail['sub.gamma.fg']), 'ref', rng.choice(avail['alpha.K']), rsc])
+      if rsc:
+        stmts.insert(rng.randrange(len(stmts) + 1), ['bind', 'alpha.K', rng.choice(avail['alpha.K']), 'b', rng.randrange(1000), 'rsc'])
     include = None
     if rng.random() < 0.4:
       inc_imports = rng.sample(['from PK.sub import alpha', 'import PK.sub.alpha as A1', 'from PK import beta as B', 'from PK.sub import gamma as alpha2'], rng.choice([1, 2]))
@@ -132,6 +135,10 @@ def deliver(gin, pk, expected_keys):
   """Call every object of interest through gin.get_configurable(<python object>) and report what it received."""
   out = {}
   for (scope, obj) in expected_keys:
+    if obj == 'REF':
+      inst = gin.get_configurable(resolve_obj(pk, 'sub.gamma.fg'))()[2]
+      out[(scope, obj)] = {'a': inst.a, 'b': inst.b, 'm': inst.meth()[1]}
+      continue
     mod, chain, params, kind = OBJECTS[obj]
     with gin.config_scope(scope or None):
       if kind == 'function':
@@ -176,6 +183,7 @@ def run_bindings(ctx, case):
   inc_path = None
   body = []
   ref_created_at = None
+  ref_scope = ''
   for idx, st in enumerate(stmts):
     if case['include'] and case['include']['pos'] == idx:
       body.append('INCLUDE')
@@ -187,9 +195,12 @@ def run_bindings(ctx, case):
       spell_used.setdefault(obj, set()).add(sp)
       ctx.bucket('obj:' + OBJECTS[obj][3])
     else:
-      _, obj, sp, prm, refsp = st
-      body.append('%s.%s = @%s()' % (sp.replace('PK', pk), prm, refsp.replace('PK', pk)))
+      _, obj, sp, prm, refsp, rsc = st
+      body.append('%s.%s = @%s%s()' % (sp.replace('PK', pk), prm, rsc + '/' if rsc else '', refsp.replace('PK', pk)))
       ref_created_at = idx
+      ref_scope = rsc
+      if rsc:
+        ctx.bucket('ref:scoped')
       spell_used.setdefault('alpha.K', set()).add(refsp)
       first_use.setdefault('alpha.K', idx)
   if case['include'] and case['include']['pos'] >= len(stmts):
@@ -235,6 +246,13 @@ def run_bindings(ctx, case):
   keys = sorted(model)
   # objects reached through the python object receive exactly what was bound through any spelling
   expect = {}
+  if ref_created_at is not None:
+    # the instance built through the (possibly scoped) reference: class bindings of that scope + method bindings
+    ka = model.get(('', 'alpha.K'), {})
+    ks = model.get((ref_scope, 'alpha.K'), {}) if ref_scope else {}
+    km = model.get(('', 'alpha.K.meth'), {})
+    kms = model.get((ref_scope, 'alpha.K.meth'), {}) if ref_scope else {}
+    expect[('', 'REF')] = {'a': ks.get('a', ka.get('a', 0)), 'b': ks.get('b', ka.get('b', 0)), 'm': kms.get('m', km.get('m', 0))}
   for (scope, obj) in keys:
     params = OBJECTS[obj][2]
     vals = {}
@@ -246,6 +264,8 @@ def run_bindings(ctx, case):
     if OBJECTS[obj][3] in ('method', 'nested-method'):
       vals = {params[0]: vals[params[0]]}
     expect[(scope, obj)] = vals
+  if ref_created_at is not None:
+    keys = keys + [('', 'REF')]
   try:
     got = deliver(gin, pk, keys)
   except Exception as e:  # pylint: disable=broad-except
